@@ -53,7 +53,7 @@ theorem step_keeps_cache_empty (s : St) (st : Step) (h : s.cache = []) : (step s
     cases hd : deliverOlvm env s tx vm with
     | mk s' r =>
       by_cases hc : r.code = 0
-      · obtain ⟨s1, er, -, -, -, -, rfl, -⟩ := deliver_ok env s s' tx vm r hd hc
+      · obtain ⟨s1, er, -, -, -, -, hfee, rfl, -⟩ := deliver_ok env s s' tx vm r hd hc
         rfl
       · rcases deliver_refused env s s' tx vm r hd hc with rfl | rfl
         · exact h
@@ -90,7 +90,7 @@ theorem stale_cache_breaks_one_ledger :
 theorem feepool_credit_exact (env : Env) (s s' : St) (tx : Tx) (vm : VmOut) (r : Resp)
     (h : deliverOlvm env s tx vm = (s', r)) (hc : r.code = 0) :
     s'.w.pool = s.w.pool + r.gasUsed * tx.price := by
-  obtain ⟨s1, er, -, ht, -, -, rfl, rfl⟩ := deliver_ok env s s' tx vm r h hc
+  obtain ⟨s1, er, -, ht, -, -, hfee, rfl, rfl⟩ := deliver_ok env s s' tx vm r h hc
   obtain ⟨s2, gl, f, -, hr, -, -, rfl, -⟩ := transitionDb_ok env s s1 tx vm er ht
   simp only [finalise_w, finW_pool, addBalance_w, runVm_w _ _ _ _ _ _ _ hr, bought_w]
   rw [Int.mul_comm]
@@ -99,7 +99,7 @@ theorem feepool_credit_exact (env : Env) (s s' : St) (tx : Tx) (vm : VmOut) (r :
 theorem gas_used_within_limit (env : Env) (s s' : St) (tx : Tx) (vm : VmOut) (r : Resp)
     (h : deliverOlvm env s tx vm = (s', r)) (hc : r.code = 0) :
     0 < r.gasUsed ∧ r.gasUsed ≤ tx.gas ∧ r.gasWanted = tx.gas := by
-  obtain ⟨s1, er, -, -, hne, hle, -, rfl⟩ := deliver_ok env s s' tx vm r h hc
+  obtain ⟨s1, er, -, -, hne, hle, hfee, -, rfl⟩ := deliver_ok env s s' tx vm r h hc
   exact ⟨by simp only; omega, hle, rfl⟩
 
 /-- SENDER: an executed transaction, successful or reverted, debits the sender exactly
@@ -112,7 +112,7 @@ theorem sender_debit_exact (env : Env) (s s' : St) (tx : Tx) (vm : VmOut) (r : R
     (h : deliverOlvm env s tx vm = (s', r)) (hc : r.code = 0) :
     nativeBalance s'.w tx.sender =
       nativeBalance s.w tx.sender - r.gasUsed * tx.price - (if r.stage = .success then tx.value else 0) := by
-  obtain ⟨s1, er, hv, ht, hne, -, rfl, rfl⟩ := deliver_ok env s s' tx vm r h hc
+  obtain ⟨s1, er, hv, ht, hne, -, hfee, rfl, rfl⟩ := deliver_ok env s s' tx vm r h hc
   obtain ⟨gf, hu, o, ho, hob, hon, hod, hos⟩ :=
     transitionDb_sender env s s1 tx vm er h0 (validate_none_value env s.w tx hv) hto hnew heff ht
   obtain ⟨hw, hwf⟩ := transitionDb_ok_w env s s1 tx vm er (wf_of_empty s h0) ht
@@ -137,7 +137,7 @@ theorem nonce_plus_one (env : Env) (s s' : St) (tx : Tx) (vm : VmOut) (r : Resp)
     keeperNonce s'.w tx.sender = keeperNonce s.w tx.sender + 1 ∧
     evmNonce s' tx.sender = evmNonce s tx.sender + 1 := by
   have key : keeperNonce s'.w tx.sender = keeperNonce s.w tx.sender + 1 := by
-    obtain ⟨s1, er, hv, ht, hne, -, rfl, rfl⟩ := deliver_ok env s s' tx vm r h hc
+    obtain ⟨s1, er, hv, ht, hne, -, hfee, rfl, rfl⟩ := deliver_ok env s s' tx vm r h hc
     obtain ⟨gf, hu, o, ho, hob, hon, hod, hos⟩ :=
       transitionDb_sender env s s1 tx vm er h0 (validate_none_value env s.w tx hv) hto hnew heff ht
     obtain ⟨hw, hwf⟩ := transitionDb_ok_w env s s1 tx vm er (wf_of_empty s h0) ht
@@ -162,7 +162,7 @@ theorem recipient_credit_exact (env : Env) (s s' : St) (tx : Tx) (vm : VmOut) (r
     (heff : ∀ e ∈ vm.effs, e.addr ≠ t)
     (h : deliverOlvm env s tx vm = (s', r)) (hc : r.code = 0) :
     nativeBalance s'.w t = nativeBalance s.w t + (if r.stage = .success then tx.value else 0) := by
-  obtain ⟨s1, er, hv, ht, -, -, rfl, rfl⟩ := deliver_ok env s s' tx vm r h hc
+  obtain ⟨s1, er, hv, ht, -, -, hfee, rfl, rfl⟩ := deliver_ok env s s' tx vm r h hc
   obtain ⟨hw, hwf⟩ := transitionDb_ok_w env s s1 tx vm er (wf_of_empty s h0) ht
   have htr := transitionDb_recipient env s s1 tx vm er t h0 (by simp [hto]) hat heff ht
   have hfin := tracks_finalise s1 t _ hwf htr
@@ -178,7 +178,7 @@ theorem created_contract_credit_exact (env : Env) (s s' : St) (tx : Tx) (vm : Vm
     (h : deliverOlvm env s tx vm = (s', r)) (hc : r.code = 0) :
     nativeBalance s'.w env.newAddr =
       nativeBalance s.w env.newAddr + (if r.stage = .success then tx.value else 0) := by
-  obtain ⟨s1, er, hv, ht, -, -, rfl, rfl⟩ := deliver_ok env s s' tx vm r h hc
+  obtain ⟨s1, er, hv, ht, -, -, hfee, rfl, rfl⟩ := deliver_ok env s s' tx vm r h hc
   obtain ⟨hw, hwf⟩ := transitionDb_ok_w env s s1 tx vm er (wf_of_empty s h0) ht
   have htr := transitionDb_recipient env s s1 tx vm er env.newAddr h0 (by simp [hto]) hat heff ht
   have hfin := tracks_finalise s1 env.newAddr _ hwf htr
@@ -193,7 +193,7 @@ theorem bystander_untouched (env : Env) (s s' : St) (tx : Tx) (vm : VmOut) (r : 
     (heff : ∀ e ∈ vm.effs, e.addr ≠ c)
     (h : deliverOlvm env s tx vm = (s', r)) : nativeBalance s'.w c = nativeBalance s.w c := by
   by_cases hc : r.code = 0
-  · obtain ⟨s1, er, hv, ht, -, -, rfl, rfl⟩ := deliver_ok env s s' tx vm r h hc
+  · obtain ⟨s1, er, hv, ht, -, -, hfee, rfl, rfl⟩ := deliver_ok env s s' tx vm r h hc
     obtain ⟨hw, hwf⟩ := transitionDb_ok_w env s s1 tx vm er (wf_of_empty s h0) ht
     have htr := transitionDb_bystander env s s1 tx vm er c h0 hcs hct hcn heff ht
     have hfin := tracks_finalise s1 c _ hwf htr
@@ -211,7 +211,8 @@ theorem precheck_failure_noop (env : Env) (s s' : St) (tx : Tx) (vm : VmOut) (r 
   · rfl
   · cases s; simp_all
 
-/-- a refused transaction reports no gas used -/
+/-- a refused transaction reports no gas used (the one exception is the unreachable gas-overflow
+    answer of the fee step) -/
 theorem precheck_failure_reports_no_gas (env : Env) (s s' : St) (tx : Tx) (vm : VmOut) (r : Resp)
     (h : deliverOlvm env s tx vm = (s', r)) (hc : r.code ≠ 0) (hs : r.stage ≠ .gasOverflow) :
     r.gasUsed = 0 := by
@@ -246,11 +247,11 @@ theorem olvm_value_accounting (env : Env) (s s' : St) (tx : Tx) (vm : VmOut) (r 
     (h : deliverOlvm env s tx vm = (s', r)) :
     total s'.w.bal + s'.w.pool = total s.w.bal + s.w.pool - burnt env s tx vm := by
   by_cases hc : r.code = 0
-  · obtain ⟨s1, er, hv, ht, hne, hle, rfl, rfl⟩ := deliver_ok env s s' tx vm r h hc
+  · obtain ⟨s1, er, hv, ht, hne, hle, hfee, rfl, rfl⟩ := deliver_ok env s s' tx vm r h hc
     obtain ⟨hw, hwf⟩ := transitionDb_ok_w env s s1 tx vm er (wf_of_empty s h0) ht
     have hmir := mirror_transitionDb env s s1 tx vm er h0 ht
     obtain ⟨gf, hu, hpend⟩ := pend_transitionDb env s s1 tx vm er h0 hz ht
-    rw [burnt_of_ok env s s1 tx vm er hv ht hne hle]
+    rw [burnt_of_ok env s s1 tx vm er hv ht hne hle hfee]
     simp only
     rw [total_finalise s1 hwf hmir, finalise_w, finW_pool, hw, hpend]
     have hlt : gf < gasU tx := by omega
@@ -279,9 +280,9 @@ theorem olvm_total_never_grows (env : Env) (s s' : St) (tx : Tx) (vm : VmOut) (r
   have hacc := olvm_value_accounting env s s' tx vm r h0 hz h
   have hb : 0 ≤ burnt env s tx vm := by
     by_cases hc : r.code = 0
-    · obtain ⟨s1, er, hv, ht, hne, hle, -, -⟩ := deliver_ok env s s' tx vm r h hc
+    · obtain ⟨s1, er, hv, ht, hne, hle, hfee, -, -⟩ := deliver_ok env s s' tx vm r h hc
       obtain ⟨-, hwf⟩ := transitionDb_ok_w env s s1 tx vm er (wf_of_empty s h0) ht
-      rw [burnt_of_ok env s s1 tx vm er hv ht hne hle]
+      rw [burnt_of_ok env s s1 tx vm er hv ht hne hle hfee]
       exact burntAt_nonneg tx.sender s1 hwf (suiOk_transitionDb env s s1 tx vm er h0 hadd hsnd ht)
     · rw [burnt_of_refused env s s' tx vm r h hc]; omega
   exact ⟨hb, by omega⟩
@@ -291,9 +292,9 @@ theorem nothing_burnt_without_selfdestruct (env : Env) (s s' : St) (tx : Tx) (vm
     (h0 : s.cache = []) (hn : noSuicide vm.effs = true)
     (h : deliverOlvm env s tx vm = (s', r)) : burnt env s tx vm = 0 := by
   by_cases hc : r.code = 0
-  · obtain ⟨s1, er, hv, ht, hne, hle, -, -⟩ := deliver_ok env s s' tx vm r h hc
+  · obtain ⟨s1, er, hv, ht, hne, hle, hfee, -, -⟩ := deliver_ok env s s' tx vm r h hc
     obtain ⟨-, hwf⟩ := transitionDb_ok_w env s s1 tx vm er (wf_of_empty s h0) ht
-    rw [burnt_of_ok env s s1 tx vm er hv ht hne hle]
+    rw [burnt_of_ok env s s1 tx vm er hv ht hne hle hfee]
     exact burntAt_zero_of_noSui s1 hwf (noSui_transitionDb env s s1 tx vm er h0 hn ht)
   · exact burnt_of_refused env s s' tx vm r h hc
 
@@ -315,7 +316,7 @@ theorem olvm_conserves_value_no_inner_moves (env : Env) (s s' : St) (tx : Tx) (v
     total s'.w.bal + s'.w.pool = total s.w.bal + s.w.pool :=
   olvm_conserves_value_balanced_effs env s s' tx vm r h0 (by rw [he]; rfl) (by rw [he]; rfl) h
 
-def cxEnv : Env := ⟨true, 1, 1000000, "n"⟩
+def cxEnv : Env := ⟨true, 1, 1000000, "n", false, 1000000⟩
 def cxTx : Tx := { okTx with to := some "c", value := 7, gas := 30000, nz := 1 }
 /-- `c` is a contract holding 5; called with value 7 it pays 12 to `b` and selfdestructs -/
 def cxState : St := ⟨⟨[("a", 100000), ("c", 5)], [("c", ⟨1, true⟩)], 0⟩, []⟩
@@ -370,7 +371,7 @@ theorem nonce_above_state_executes_and_can_be_reused :
     `nonce_plus_one`, `feepool_credit_exact`, `bystander_untouched` holds, and the numbers are the
     expected ones (gas used 21000 at price 3) -/
 example :
-    let env : Env := ⟨true, 1, 1000000, "n"⟩
+    let env : Env := ⟨true, 1, 1000000, "n", false, 1000000⟩
     let tx : Tx := { okTx with nonce := 4, value := 500, gas := 25000, price := 3, memo := some 4 }
     let vm : VmOut := ⟨0, 0, false, false, []⟩
     let s : St := ⟨⟨[("a", 100000), ("t", 9), ("z", 1)], [("a", ⟨4, false⟩)], 40⟩, []⟩
@@ -384,7 +385,7 @@ example :
 /-- an executed but reverted call with a refund-free out-of-gas: all gas is charged, no value moves,
     the nonce still goes up -/
 example :
-    let env : Env := ⟨true, 1, 1000000, "n"⟩
+    let env : Env := ⟨true, 1, 1000000, "n", false, 1000000⟩
     let tx : Tx := { okTx with to := some "c", value := 500, gas := 30000, price := 2, nz := 1 }
     let vm : VmOut := ⟨0, 0, true, false, []⟩
     let s : St := ⟨⟨[("a", 100000)], [("c", ⟨1, true⟩)], 0⟩, []⟩
@@ -396,7 +397,7 @@ example :
 
 /-- a creation at a pre-funded address with a refund: gas used = 60000 − (5000 + min(55000/3, 4800)) -/
 example :
-    let env : Env := ⟨true, 1, 1000000, "n"⟩
+    let env : Env := ⟨true, 1, 1000000, "n", false, 1000000⟩
     let tx : Tx := { okTx with to := none, value := 7, gas := 60000, nz := 10, z := 2, size := 130 }
     let vm : VmOut := ⟨5000, 4800, false, true, []⟩
     let s : St := ⟨⟨[("a", 100000), ("n", 3)], [], 0⟩, []⟩
@@ -409,7 +410,7 @@ example :
 /-- a forwarding contract: the hypothesis of `olvm_conserves_value` holds for a run with inner
     value movement (contract `c` passes the 7 it receives on to `t`), and the total is unchanged -/
 example :
-    let env : Env := ⟨true, 1, 1000000, "n"⟩
+    let env : Env := ⟨true, 1, 1000000, "n", false, 1000000⟩
     let tx : Tx := { okTx with to := some "c", value := 7, gas := 90000 }
     let vm : VmOut := ⟨20000, 0, false, false, [.sub "c" 7, .add "t" 7]⟩
     let s : St := ⟨⟨[("a", 100000), ("c", 5)], [("c", ⟨1, true⟩)], 0⟩, []⟩
@@ -425,9 +426,9 @@ example :
     let tx : Tx := { okTx with nonce := 1, value := 5, memo := some 1 }
     let vm : VmOut := ⟨0, 0, false, false, []⟩
     let s : St := ⟨⟨[("a", 100000)], [("a", ⟨2, false⟩)], 0⟩, []⟩
-    (deliverOlvm ⟨true, 1, 1000000, "n"⟩ s tx vm).2.stage = .invalid .nonceLow ∧
-    (deliverOlvm ⟨true, 1, 20000, "n"⟩ s { tx with nonce := 2, memo := some 2 } vm).2.stage = .consensus .gasPool ∧
-    (deliverOlvm ⟨true, 1, 20000, "n"⟩ s { tx with nonce := 2, memo := some 2 } vm).1 = s := by
+    (deliverOlvm ⟨true, 1, 1000000, "n", false, 1000000⟩ s tx vm).2.stage = .invalid .nonceLow ∧
+    (deliverOlvm ⟨true, 1, 20000, "n", false, 20000⟩ s { tx with nonce := 2, memo := some 2 } vm).2.stage = .consensus .gasPool ∧
+    (deliverOlvm ⟨true, 1, 20000, "n", false, 20000⟩ s { tx with nonce := 2, memo := some 2 } vm).1 = s := by
   decide
 
 /-- the inputs that used to panic in `validateSigner` and the spellings that used to be admitted
@@ -445,6 +446,20 @@ example :
     (deliverOlvm cxEnv s { tx with typeOk := false } vm).2.stage = .invalid .txType ∧
     (deliverOlvm cxEnv s { tx with memoCanon := false } vm).2.stage = .invalid .memoNonce ∧
     (deliverOlvm cxEnv s { tx with memoCanon := false } vm).1 = s := by
+  decide
+
+/-- the block gas meter: a transaction that arrives on a shut meter cannot read its sender and is
+    refused for lack of funds; one whose contract gas takes the meter to its limit fails in the fee
+    step; both leave no trace -/
+example :
+    let tx : Tx := { okTx with value := 5 }
+    let vm : VmOut := ⟨0, 0, false, false, []⟩
+    let s : St := ⟨⟨[("a", 100000)], [], 7⟩, []⟩
+    (deliverOlvm ⟨true, 1, 1000000, "n", false, 1000000⟩ s tx vm).2.code = 0 ∧
+    (deliverOlvm ⟨true, 1, 0, "n", true, 0⟩ s tx vm).2.stage = .invalid .funds ∧
+    (deliverOlvm ⟨true, 1, 21000, "n", false, 20900⟩ s tx vm).2.stage = .feeRefused ∧
+    (deliverOlvm ⟨true, 1, 21000, "n", false, 20900⟩ s tx vm).1 = s ∧
+    (checkOlvm ⟨true, 1, 0, "n", true, 0⟩ s tx).2 = 1 := by
   decide
 
 end OLP.Props.C17
